@@ -390,13 +390,28 @@ fn window_recovery(rng: &mut Rng, seed: u64, verbose: bool) -> CaseOut {
     steps.push(poll0());
     // refill: window + 1 requests with acknowledgements withheld
     let probe_from = steps.len();
+    // (every other case: requests that are refused locally - a payload closure that fails, one
+    // that claims more bytes than it wrote, a payload the arena cannot hold - are made when
+    // exactly one slot of the window is free: they take none)
+    let refused_in_between = rng.chance(1, 2);
     for k in 0..window + 1 {
+        if refused_in_between && k + 1 == window {
+            for _ in 0..1 + rng.below(2) {
+                let payload = match rng.below(3) {
+                    0 => crate::steps::PayloadSpec::Fail,
+                    1 => crate::steps::PayloadSpec::Lie { claim: 5000 },
+                    _ => crate::steps::PayloadSpec::Fill { len: 5000, tag: 0x9100, ascii: false },
+                };
+                steps.push(Step::Publish(crate::steps::PubSpec { topic: "refused".into(), payload, qos: 1 + rng.below(2) as u8, retain: false, props: vec![], correlate: None, cancel_at: None }));
+            }
+            out.count("refused_requests_with_one_slot_free", 1);
+        }
         steps.push(pubq(1, "probe", 0x9000 + k as u32, 1));
     }
     let (log, world) = run_script(&cfg, steps, seed);
     let w = world.borrow();
     out.evaluations += 1;
-    let probes: Vec<&crate::exec::OpRec> = log.ops.iter().filter(|o| o.step >= probe_from && o.kind == "publish1").collect();
+    let probes: Vec<&crate::exec::OpRec> = log.ops.iter().filter(|o| o.step >= probe_from && o.kind == "publish1" && matches!(&log.steps[o.step], Step::Publish(p) if p.topic == "probe")).collect();
     let quiescent_before = log.ops.iter().find(|o| o.step >= probe_from).and_then(|o| o.snap_before.as_ref()).is_some_and(|sn| sn.tx.retained.is_empty() && sn.tx.release.is_empty());
     for (i, o) in log.ops.iter().enumerate() {
         for sn in [&o.snap_before, &o.snap_after].into_iter().flatten() {
